@@ -168,6 +168,14 @@ class Snapshotter(PointCounter):
                 fhandle.write(bytes(event.data[: len(event.data) // 2]))
             self.images.append((k, 'torn', dest))
 
+    def final_image(self):
+        """One more image after the last event: the operation has returned (its handle may still be open)."""
+        k = len(self.points)
+        dest = os.path.join(self.snapdir, f'k{k}')
+        self._copy(dest)
+        self.points.append(['returned', 'operation returned'])
+        self.images.append((k, 'plain', dest))
+
     def _copy(self, dest):
         target = os.path.join(dest, 'c')
         shutil.copytree(self.root, target, symlinks=True)
@@ -213,6 +221,8 @@ def run_in_process(work, case, model, aux_model, rop, consumer, trace_reads=Fals
     finally:
         shim.deactivate()
         shim.uninstall()
+        if hasattr(consumer, 'final_image') and outcome.get('status') == 'returned':
+            consumer.final_image()
         try:
             world.close()
         except Exception:  # pylint: disable=broad-except
